@@ -40,7 +40,16 @@ def run(ctx):
     ctx.add_tlc(res, 'Incomplete: layout agreement (all n<=6, l1,l2<=5) and recoverability table')
     rng = np.random.default_rng(ctx.seed)
     quick = ctx.tier == 'quick'
-    for row in res.json:
+    # one step beyond the tabulated scope: d up to 6, modes up to 20, expected ranks up to 6
+    extra = []
+    for t_ in range(6 if quick else 40):
+        d_ = int(rng.integers(3, 7))
+        rho_ = int(rng.integers(2, 5))
+        m_ = rho_ + int(rng.integers(0, 3))
+        n_ = [int(x) for x in rng.integers(m_, 21, size=d_)]
+        prof = [1] + [rho_] * (d_ - 1) + [1]
+        extra.append({'case': {'n': n_, 'rho': prof, 'm': m_, 'cap': m_ + int(rng.integers(0, 3))}, 'rec': True})
+    for row in res.json + extra:
         c, rec = row['case'], row['rec']
         n, rho, m, cap = c['n'], c['rho'], c['m'], c['cap']
         if not true_profile(n, rho):
